@@ -9,7 +9,7 @@ use crate::interpreter::io::Printer;
 use crate::interpreter::string_utils::fix_length;
 
 /// Handles the PRINT and LPRINT statements.
-#[derive(Debug)]
+#[derive(Clone, Debug)]
 pub struct PrintState {
     printer_type: PrinterType,
     file_handle: FileHandle,
